@@ -1,6 +1,7 @@
 """C06 - top-K collection returns exactly the best K, with deterministic ties.
 M: spec/TopN.tla - the TopNComputer machine (buffer 2K, truncate, strict threshold): `Retains` for K in 0..3,
    keys 1..3, 8 pushes, both comparators; negative configurations (descending pushes; threshold from rank K-2).
+   (incl. dedicated block-WAND runs: conjunctions / unions of 4..6 term queries and mixed trees, K from 1 to beyond the matches)
 R: TLC (Gen_TopN) enumerates every push sequence; harness/topk_driver pushes them through the public
    tantivy::collector::TopNComputer; TopNTrace compares the threshold after each push and the final vector.
 T: per (searcher, query, sort key): exhaustive (address, key) list of a non-pruning collector on the same
@@ -225,7 +226,7 @@ def searches(ctx, runs):
         info = next((e for e in ev if e.get("ev") == "reset"), {})
         log(f"[T] search seed {seed}: {docs} documents in {info.get('segments')} segments, {queries} queries, {n} observations accepted")
         return ev
-    with ThreadPoolExecutor(max_workers=4) as ex:
+    with ThreadPoolExecutor(max_workers=6) as ex:
         return list(ex.map(one, enumerate(runs)))
 
 
@@ -313,11 +314,16 @@ def run(ctx):
     tev = replay_generated(ctx)
     if ctx.quick:
         runs = [(ctx.seed, 2500, 45, []), (ctx.seed + 1, 2500, 45, ["--segments", "1"]), (ctx.seed + 2, 3000, 45, ["--segments", "6"]),
-                (ctx.seed + 3, 1200, 45, [])]
+                (ctx.seed + 3, 1200, 45, []),
+                # block-WAND paths: conjunctions / unions of 4..6 term queries (and mixed trees) on the `body` field, several
+                # 128-document blocks per term, K from 1 to beyond the number of matches
+                (ctx.seed + 4, 4000, 70, ["--wand", "--segments", "2"]), (ctx.seed + 5, 2500, 50, ["--wand", "--segments", "1"])]
     else:
         runs = [(ctx.seed + i, d, 400, x) for i, (d, x) in enumerate([(2500, []), (2500, ["--segments", "1"]), (3000, ["--segments", "6"]), (1200, []),
                                                                          (6000, ["--segments", "2"]), (4000, []), (4000, ["--segments", "3"]), (800, ["--segments", "5"]),
-                                                                         (5000, ["--segments", "4", "--threads", "8"]), (2000, []), (3500, []), (3000, ["--segments", "1"])])]
+                                                                         (5000, ["--segments", "4", "--threads", "8"]), (2000, []), (3500, []), (3000, ["--segments", "1"]),
+                                                                         (4000, ["--wand", "--segments", "2"]), (6000, ["--wand", "--segments", "1"]),
+                                                                         (3000, ["--wand", "--segments", "5"]), (5000, ["--wand", "--segments", "3"])])]
     sev = searches(ctx, runs)
     known_finding_runs(ctx)
     flat = [e for ev in sev for e in ev]
